@@ -31,10 +31,15 @@ peg::parser! {
             }
 
         // Match balanced braces and capture everything including the braces
+        // Braces inside JSON string literals do not count: a string is skipped as a whole.
         rule balanced_braces() -> &'input str
-            = json:$( "{" (balanced_braces() / (!"}" [_]))* "}" ) {
+            = json:$( "{" (json_string() / balanced_braces() / (!"}" [_]))* "}" ) {
                 json
             }
+
+        // A JSON string literal, honouring backslash escapes
+        rule json_string()
+            = "\"" ("\\" [_] / (!['"' | '\\'] [_]))* "\""
 
         pub rule store() -> (&'input str, &'input str, &'input str)
             = _ ci("STORE") _
